@@ -1,6 +1,6 @@
 (* C12 — parallel tempering exchanges conserve states, obey the swap rule, terminate, and do not depend
    on the interleaving of the chains.  Statements only; proofs in Proof/NetworkProofs.v, Proof/ExchangeProofs.v. *)
-From Coq Require Import List Bool Arith PrimFloat.
+From Coq Require Import List Bool Arith.
 From HV Require Import Num FloatIO Network NetworkProofs Exchange ExchangeProofs C12Corr.
 Import ListNotations.
 
